@@ -18,6 +18,8 @@ CFG = {
         # the converse round trip and its consequence: no two plaintexts share a reply
         "Swat4.C02.enc_dec_stream",
         "Swat4.C02.encrypt_injective",
+        "Swat4.C02.reply_header",
+        "Swat4.C02.reply_header_plain_independent",
         "Swat4.C02.key_agree",
         "Swat4.C02.schedule_agree",
         "Swat4.C02.facts_ok",
@@ -50,7 +52,7 @@ CFG = {
     ],
     "trusted_base": COMMON_TRUSTED,
     "manifest": {
-        "text": "Lean theorem C02_main_ascii (the audited headline: every secret byte non-zero and below 128, the range in which the unsigned-byte reference is known to be the SDK's signed-char cipher) and C02_main (the same for every 6-byte NUL-free secret, against the unsigned-byte reference only): for every such secret, 8-byte challenge, 23 header draws and plaintext of any length, the independently written SDK reference decoder applied to the model of crypt.Encrypt returns the plaintext; encrypt_length: ciphertext = plaintext + 23 bytes; encrypt_total: the shuffle loop always terminates; enc_dec_stream / encrypt_injective: the stream cipher is a bijection on every length (encrypting a decryption gives the ciphertext back) and, for one secret, challenge and header draws, two plaintexts with the same reply are equal; C02_swat4: the instance for the game key read from the source. recoverRnd_encrypt / recoverRnd_agrees / recoverRnd_encrypt_bytes: the driver-only recoverRnd (the 23 header draws read back from the reply) returns, on the output of Encrypt for unknown draws rnd, a vector of the right length that equals rnd at each of the 19 positions that reach the output, and the model run with it returns exactly that output, so comparing 'model with recovered draws' with the reply loses nothing; recoverRnd_encrypt_exact: it returns rnd itself when the four overwritten positions (0, 1, 2, 8) hold the canonical values; recoverRnd_dead_position: the unrestricted equation is false because those draws never reach the output. The model is tied to crypt.go/state.go by byte-for-byte comparison of Go Encrypt output with the model on generated inputs, and the SDK decoder is also run on the Go bytes.",
+        "text": "Lean theorem C02_main_ascii (the audited headline: every secret byte non-zero and below 128, the range in which the unsigned-byte reference is known to be the SDK's signed-char cipher) and C02_main (the same for every 6-byte NUL-free secret, against the unsigned-byte reference only): for every such secret, 8-byte challenge, 23 header draws and plaintext of any length, the independently written SDK reference decoder applied to the model of crypt.Encrypt returns the plaintext; encrypt_length: ciphertext = plaintext + 23 bytes; encrypt_total: the shuffle loop always terminates; enc_dec_stream / encrypt_injective: the stream cipher is a bijection on every length (encrypting a decryption gives the ciphertext back) and, for one secret, challenge and header draws, two plaintexts with the same reply are equal; reply_header / reply_header_plain_independent: the first 23 bytes of every reply are the header, a function of secret, challenge and draws only; C02_swat4: the instance for the game key read from the source. recoverRnd_encrypt / recoverRnd_agrees / recoverRnd_encrypt_bytes: the driver-only recoverRnd (the 23 header draws read back from the reply) returns, on the output of Encrypt for unknown draws rnd, a vector of the right length that equals rnd at each of the 19 positions that reach the output, and the model run with it returns exactly that output, so comparing 'model with recovered draws' with the reply loses nothing; recoverRnd_encrypt_exact: it returns rnd itself when the four overwritten positions (0, 1, 2, 8) hold the canonical values; recoverRnd_dead_position: the unrestricted equation is false because those draws never reach the output. The model is tied to crypt.go/state.go by byte-for-byte comparison of Go Encrypt output with the model on generated inputs, and the SDK decoder is also run on the Go bytes.",
         "level_note": "Trusted: Lean kernel; axioms propext, Quot.sound, Classical.choice; the SDK reference (Spec/GOA.lean) as the definition of 'stock client'; the finite differential run as evidence that Model/Crypt.lean behaves like crypt.go; generated Facts.lean (constants, game key) via the harness' facts extractor.",
         "technique": "Lean 4 proof (round-trip by induction; SDK-vs-Go key-schedule refinement) + differential correspondence",
         "design_ref": "DESIGN.md §5 C02",
